@@ -82,6 +82,15 @@ func c29Directed(now time.Time) []*verifx.SigSpec {
 	s.NoSlash = true
 	out = append(out, s)
 	out = append(out, base("GET", ""))
+	// the query-string carrier crossed with every other payload mode
+	for _, m := range []string{verifx.ModeHash, verifx.ModeUnsigned, verifx.ModeStream, verifx.ModeStreamTrailer, verifx.ModeStreamUnsignedTrailer, verifx.ModeStreamUnsigned} {
+		s = base("PUT", "presigned "+m)
+		s.Mode, s.Presign, s.Expires = m, true, 900
+		s.Body = bytes.Repeat([]byte("fedcba9876543210"), 20)
+		s.Chunks = []int{100, 64}
+		s.Trailer = "x-amz-checksum-sha256"
+		out = append(out, s)
+	}
 	return out
 }
 
@@ -103,14 +112,14 @@ func runC29(args []string) {
 		sg, err := spec.Build()
 		if err != nil {
 			// the SDK refused to sign: nothing was produced, nothing to judge
-			out.Line("req %s-unsignable %s 0 - - 0", label, spec.Mode)
+			out.Line("req %s-unsignable %s 0 - - 0", label, spec.Label())
 			out.Line("noview")
 			out.Line("obs 0 0 0 - 0 -")
 			out.Line("endreq")
 			out.End()
 			return
 		}
-		verifx.SendWire(out, l, label, spec.Mode, sg.Wire, spec.Cred.AK, spec.Body, true)
+		verifx.SendWire(out, l, label, spec.Label(), sg.Wire, spec.Cred.AK, spec.Body, true)
 		out.End()
 	}
 
